@@ -121,9 +121,24 @@ def parse_struct_fields(src_dir):
             if not fn.endswith('.rs'):
                 continue
             src = strip_comments(open(os.path.join(root, fn)).read())
-            for m in re.finditer(r'\bstruct\s+(\w+)\s*(?:<[^>{(;]*>)?\s*(\{|\()', src):
+            for m in re.finditer(r'\bstruct\s+(\w+)\s*', src):
                 name = m.group(1)
-                k = m.end() - 1
+                k = m.end()
+                if k < len(src) and src[k] == '<':
+                    depth = 0
+                    while k < len(src):
+                        if src[k] == '<':
+                            depth += 1
+                        elif src[k] == '>':
+                            depth -= 1
+                            if depth == 0:
+                                k += 1
+                                break
+                        k += 1
+                mm2 = re.compile(r'\s*(?:where[^{(;]*)?(\{|\()').match(src, k)
+                if not mm2:
+                    continue
+                k = mm2.end() - 1
                 end = mir.find_matching(src, k)
                 body = src[k + 1:end]
                 fields = []
@@ -207,6 +222,18 @@ def load(repo, scratch, crate_key, **vm_args):
         for k, v in parse_struct_fields(os.path.join(repo, d, 'src')).items():
             L.structs.setdefault(k, v)
     L.enums = enums
+    try:
+        import glob
+        lock = open(os.path.join(repo, 'Cargo.lock')).read()
+        mm = re.search(r'name = "graphql-parser"\nversion = "([^"]+)"', lock)
+        for d in glob.glob(os.path.expanduser(f'~/.cargo/registry/src/*/graphql-parser-{mm.group(1)}/src')):
+            for k, v in parse_struct_fields(d).items():
+                L.structs.setdefault(k, v)
+            for sub in ('query', 'schema'):
+                for k, v in parse_struct_fields(os.path.join(d, sub)).items():
+                    L.structs[f'{sub}::{k}'] = v
+    except Exception:
+        pass
     L.mir_sha = hashlib.sha256(text.encode()).hexdigest()[:16]
     return L
 
